@@ -77,11 +77,33 @@ def _exec(op, var, sb, n):
     return oc, len(SIM.permuted)
 
 
+FOREIGN_ST = {"datasets": [{"name": "F_1", "DataStructure": [
+    {"name": "Id_1", "type": "Integer", "role": "Identifier", "nullable": False},
+    {"name": "Id_2", "type": "Time_Period", "role": "Identifier", "nullable": False},
+    {"name": "Me_1", "type": "Number", "role": "Measure", "nullable": True}]}]}
+
+
+def foreign_op(fmt, width=None):
+    """An unrelated run executed between the runs of a sequence: another script, another
+    time-period output format, optionally other decimal settings.  Run k must not depend on it."""
+    env = {}
+    if width:
+        env = {"VTL_DUCKDB_DECIMAL_WIDTH": str(width), "OUTPUT_NUMBER_SIGNIFICANT_DIGITS": "8"}
+    return {"api": "run", "script": 'F_s <- cast(cast("2020Q1", time_period), string); F_r <- F_1[calc Me_s := cast(Id_2, string)]; F_n <- F_1 * 1.123456789;\n',
+            "structures": FOREIGN_ST, "data": {"F_1": {"kind": "df", "columns": ["Id_1", "Id_2", "Me_1"], "rows": [[1, "2020Q1", 1.5], [2, "2021M03", 2.25]]}},
+            "kwargs": {"time_period_output_format": fmt}, "env": env, "output_folder": False}
+
+
 def _sequence_child(op, variants):
     sb = ops.Sandbox("c15")
     try:
         out = []
         for i, var in enumerate(variants):
+            if "foreign" in var:
+                SIM.reset(seed=i)
+                fo = ops.execute_op(foreign_op(*var["foreign"]), sb, 1000 + i)
+                out.append({"outcome": ("exc", "foreign", None, False, "", None, None) if fo[0] == "exc" else ("foreign",), "permuted": 0, "leftovers": []})
+                continue
             oc, nperm = _exec(op, var, sb, i)
             # lossless but compact: keep the outcome only if needed by the judge (done in parent)
             out.append({"outcome": oc, "permuted": nperm, "leftovers": [p for p in sb.leftovers() if "duckdb_tmp_" in p][:2]})
@@ -116,6 +138,8 @@ def judge(ref, res, variants):
     stats = {"ok": 0, "raised": 0, "nontrivial": 0}
     for i, (var, r) in enumerate(zip(variants, res)):
         oc = r["outcome"]
+        if oc[0] == "foreign" or "foreign" in var:
+            continue
         if oc[0] == "exc":
             stats["raised"] += 1
             continue
@@ -135,7 +159,8 @@ def task_batch(task):
     out = []
     for src in task["items"]:
         op, big = _make_op(src)
-        shim.preparse([op["script"] + "\n", op["script"]])
+        fs = foreign_op("vtl")["script"]
+        shim.preparse([op["script"] + "\n", op["script"], fs, fs + "\n"])
         ok, why = determined.fully_determined(op["script"], op["structures"])
         if not ok:
             out.append({"sid": op["sid"], "skipped": why})
@@ -144,6 +169,9 @@ def task_batch(task):
         n = rng.choice([2, 3, 4, 6]) if not big else 3
         variants = [knob_vector(rng, big) for _ in range(n)]
         variants.insert(rng.randrange(len(variants) + 1), {"env": {}})      # a repeated default run somewhere
+        if rng.random() < 0.6:                                               # an unrelated run in between
+            variants.insert(rng.randrange(1, len(variants) + 1),
+                            {"foreign": [rng.choice(["sdmx_reporting", "natural", "sdmx_gregorian", "vtl"]), rng.choice([None, None, 20])]})
         variants.append({"env": {}})                                         # and always at the end
         ref = proc.in_child(_sequence_child, op, [{"env": {}}], timeout=600)[0]["outcome"]
         if ref[0] != "ok":
